@@ -197,11 +197,16 @@ Print Assumptions C03_origin_pp_use_all_refuted.
    FindPathConf of a two-step flow, `first_steps`), the carrier and the expression that supplies AccessRequest.IP
    (tools/gen/authflows). Every non-exempt site uses the source its carrier demands, every row does, and the carriers
    are the expected ones per server (HLS, WebRTC, MoQ pages: HTTP; RTSP, RTMP: TCP with PROXY listener; SRT, MoQ
-   sessions: plain connection). *)
+   sessions: plain connection). `gin_engines`: on every gin.New() under internal/ (also API, metrics, pprof, playback)
+   SetTrustedProxies is called unconditionally in the same function - else the engine would believe the forwarding
+   headers of every peer (C03_origin_trust_all_refuted) - except the pinned HTTP/3 router of MoQ, which reads none. *)
 Theorem C03_identity_sites :
   forallb ident_site_ok sites = true /\
   forallb (fun x => ip_ok (fst (snd x)) (snd (snd x))) ident_sites = true /\
-  forallb carrier_as_expected ident_sites = true.
+  forallb carrier_as_expected ident_sites = true /\
+  forallb engine_ok gin_engines = true /\
+  forallb (fun d => existsb (fun e => String.prefix d (fst e) && snd e) gin_engines)
+          ["internal/servers/hls/"; "internal/servers/webrtc/"; "internal/servers/moq/"]%string = true.
 Proof. exact ident_ok. Qed.
 Print Assumptions C03_identity_sites.
 
